@@ -7,7 +7,8 @@ package main
 //      site   = "<enclosing function>#<k>"   (k-th go statement of that function, 1-based)
 //      body   = stable name of what the goroutine runs: "T.m" (method), "f" (function),
 //               "T.m$ret" (function literal returned by T.m), "<enclosing>$<k>" (function literal)
-//      sendsTrace      = the body calls `<x>.Send(<one arg>)`, directly or through same-package calls
+//      sendsTrace      = the body calls `<x>.Send(<one arg>)` (or `<x>.Subscribe()` / `<x>.SubscribeChannel(c)`: both
+//                        need the tracer's serving loop), directly or through same-package calls
 //                        (receiver resolved syntactically; an unresolved method call stands for every
 //                        method of that name in the package), nested `go` statements excluded
 //      registersSender = a handle obtained from `RegisterSender()` in the enclosing function before the
@@ -695,6 +696,12 @@ func (w *c07walker) walk(n ast.Node, sc c07scope, fn string) {
 							ast.Inspect(a, visit)
 						}
 						return false // the Send itself is the `sends` column, not a row
+					}
+				case (s.Sel.Name == "Subscribe" && len(v.Args) == 0) || (s.Sel.Name == "SubscribeChannel" && len(v.Args) == 1):
+					// subscribing needs the tracer's serving loop just as Send does (`t.subscription <- sub` has no
+					// alternative): it counts for the `sendsTrace` column
+					if id, ok := s.X.(*ast.Ident); !ok || !w.p.imports[file][id.Name] {
+						w.sends = true
 					}
 				case s.Sel.Name == "Wait" && len(v.Args) == 0:
 					w.ops = append(w.ops, c07op{w.body, fn, "wgwait", exprString(s.X), false, -1})
